@@ -24,6 +24,7 @@ import (
 	"math/rand"
 	"net"
 	"strconv"
+	"strings"
 	"sync"
 	"sync/atomic"
 	"time"
@@ -483,7 +484,11 @@ const c19pt0 = 96 // payload type of media 0, both of c19sdp and of the bed's se
 // c19dial connects to the bed from the given local address.
 func c19dial(bd *bed.Bed, localIP string) (*bed.Peer, error) {
 	d := net.Dialer{LocalAddr: &net.TCPAddr{IP: net.ParseIP(localIP)}, Timeout: 3 * time.Second}
-	n, err := d.Dial("tcp4", net.JoinHostPort(bd.IP, strconv.Itoa(bd.Port)))
+	network := "tcp4"
+	if strings.Contains(bd.IP, ":") {
+		network = "tcp6"
+	}
+	n, err := d.Dial(network, net.JoinHostPort(bd.IP, strconv.Itoa(bd.Port)))
 	if err != nil {
 		return nil, err
 	}
@@ -572,7 +577,11 @@ func c19victim(bd *bed.Bed, state, proto string, hooks ...func(v *c19vic)) (*c19
 			h(v)
 		}
 	}
-	peer, err := c19dial(bd, c19ipPeer)
+	peerIP := c19ipPeer
+	if strings.Contains(bd.IP, ":") {
+		peerIP = bd.IP // IPv6 bed: the legitimate peer is the loopback address itself
+	}
+	peer, err := c19dial(bd, peerIP)
 	if err != nil {
 		return nil, err
 	}
@@ -1125,8 +1134,26 @@ func c19steal(c *c19case, js string, s *vt.Sink, _ int64) error {
 			tr.Emit("panic", "why", fmt.Sprint(p))
 		}
 	}()
-	bd, err := bed.Start(bed.ServerCfg{UDP: true})
+	bcfg := bed.ServerCfg{UDP: true}
+	other6 := ""
+	if c.How == "ip6" {
+		// two native IPv6 peers: the loopback address creates the session, another address of
+		// this host (if it has one) presents the session id
+		other6 = c19otherIPv6()
+		if other6 == "" {
+			fmt.Println("DRIVER-NOTE c19 no second IPv6 address on this host: ip6 cases skipped")
+			tr.Emit("end")
+			return nil
+		}
+		bcfg = bed.ServerCfg{IP: "::1"}
+	}
+	bd, err := bed.Start(bcfg)
 	if err != nil {
+		if c.How == "ip6" {
+			fmt.Printf("DRIVER-NOTE c19 cannot listen on ::1 (%v): ip6 cases skipped\n", err)
+			tr.Emit("end")
+			return nil
+		}
 		return err
 	}
 	defer bd.Close()
@@ -1141,6 +1168,8 @@ func c19steal(c *c19case, js string, s *vt.Sink, _ int64) error {
 	proto, fromIP := "udp", c19ipOther
 	switch c.How {
 	case "ip":
+	case "ip6":
+		proto, fromIP = "tcp", other6
 	case "conn":
 		// the victim streams interleaved; the intruder is another connection of the same address
 		proto, fromIP = "tcp", c19ipPeer
@@ -1218,9 +1247,27 @@ func c19steal(c *c19case, js string, s *vt.Sink, _ int64) error {
 	closed := closedSess[sess]
 	cmu.Unlock()
 	opened1, _, _, _ := bd.Counters()
-	tr.Emit("steal", "how", c.How, "status", status, "same", st1 == st0 && !closed,
+	how := c.How
+	if how == "ip6" {
+		how = "ip" // the same clause: another address
+	}
+	tr.Emit("steal", "how", how, "status", status, "same", st1 == st0 && !closed,
 		"state", c.State, "method", c.Method, "st0", st0.String(), "st1", st1.String(), "closed", closed,
 		"newSessions", opened1-opened0, "early", c.Early, "earlyStatus", earlyStatus)
 	tr.Emit("end")
 	return nil
+}
+
+// c19otherIPv6 returns a global IPv6 address of this host other than the loopback one ("" if none).
+func c19otherIPv6() string {
+	addrs, err := net.InterfaceAddrs()
+	if err != nil {
+		return ""
+	}
+	for _, a := range addrs {
+		if n, ok := a.(*net.IPNet); ok && n.IP.To4() == nil && !n.IP.IsLoopback() && !n.IP.IsLinkLocalUnicast() {
+			return n.IP.String()
+		}
+	}
+	return ""
 }
